@@ -120,9 +120,18 @@ func dial(s *Srv, stamp func() int64) (r *regTerm, inv, resp int64) {
 	defer dialMu.Unlock()
 	inv = stamp()
 	n := s.Rec.NConns()
-	t, err := DialTerm(s.Addr, "1")
-	if err != nil {
-		panic(stall{"dial: " + err.Error()})
+	// a failing dial is the harness's own resource limit (loopback ports in TIME_WAIT after thousands of
+	// connections), not the server's doing: wait it out (TIME_WAIT lasts 60 s) before calling it a stall
+	var t *Term
+	var err error
+	for start := time.Now(); ; {
+		if t, err = DialTerm(s.Addr, "1"); err == nil {
+			break
+		}
+		if time.Since(start) > 75*time.Second {
+			panic(stall{"dial: " + err.Error()})
+		}
+		time.Sleep(100 * time.Millisecond)
 	}
 	if !s.Rec.WaitConns(n+1, stallAfter) {
 		panic(stall{"connection not accepted by the server"})
